@@ -3,20 +3,27 @@ package main
 import (
 	"fmt"
 	"os"
+	"path/filepath"
 	"strings"
+	"time"
 
+	"verifharness/dml"
 	"verifharness/hc"
 )
 
 func main() {
 	dir, _ := os.MkdirTemp("", "probe")
 	defer os.RemoveAll(dir)
-	for cpu := 1; cpu <= 4; cpu++ {
+	os.WriteFile(filepath.Join(dir, "t1.csv"), []byte("id,a\n0,1\n1,2\n2,3\n"), 0o644)
+	for _, wt := range []time.Duration{10 * time.Second, 500 * time.Millisecond} {
 		pr := hc.NewProc(dir)
-		pr.SetCPU(cpu)
-		pr.Exec("DECLARE m VIEW (id, p); INSERT INTO m VALUES (0,5); COMMIT;")
-		out, err := pr.Exec("DECLARE fn1 FUNCTION () AS BEGIN INSERT INTO m VALUES (1, 1), (2, 2); RETURN 1; END; SELECT fn1();")
-		fmt.Println("cpu", cpu, "inserted lines:", strings.Count(out, "inserted"), err)
+		pr.P.Tx.WaitTimeout = wt
+		pr.SetCPU(3)
+		dml.SnapOf(pr, "t1")
+		out, err := pr.Exec("DECLARE fn1 FUNCTION () AS BEGIN INSERT INTO t1 (id, a) VALUES (7, 1), (8, 2); RETURN 1; END; SELECT fn1();")
+		fmt.Println(wt, "inserted lines:", strings.Count(out, "inserted"), err)
+		out, err = pr.Exec("DECLARE fn2 FUNCTION () AS BEGIN INSERT INTO t1 (id, a) VALUES (7, 1), (8, 2); RETURN 1; END; SELECT fn2();")
+		fmt.Println(wt, "inserted lines:", strings.Count(out, "inserted"), err)
 		pr.Close()
 	}
 }
